@@ -230,27 +230,34 @@ def check_delete(ctx, fb, rd, root):
                     ctx.report(rd, key, f.loc(x), 'memory / a coroutine frame is released outside the deleters: an '
                                'object managed by reference counting can be freed twice or while referenced',
                                'function: ' + f.full[:300])
+    class SubWalker(lib_core.CoreWalker):
+        def on_edge(self, fn, ci, taken, st):
+            super().on_edge(fn, ci, taken, st)
+            c = fn.sn(ci)
+            neg = False
+            while c is not None and c['k'] == 'UnaryOperator' and c['op'] == '!':
+                neg = not neg
+                c = fn.sn(c['ch'][0])
+            if c is not None and c.get('cn', '').endswith('::SubEqual'):
+                st.events.append(('zero', taken != neg))
+
     for f in fb.by_qn('yaclib::detail::AtomicCounter::Sub'):
         key = 'R-DELETE AtomicCounter::Sub'
-        res = lib_core.CoreWalker(fb).run(f)
+        res = SubWalker(fb).run(f)
         ctx.instance(rd, key + ' :: ' + f.cls[:100], None)
         for st, _ in res:
-            dele = [e for e in st.events if e[0] == 'call' and e[1].endswith('::Delete')]
-            # the SubEqual outcome edge
-            ok = True
-            br = None
-            for b in f.cfg.blocks.values():
-                if b.cond is not None and f.sn(b.cond).get('cn', '').endswith('::SubEqual'):
-                    br = b
-            if br is None:
+            ev = st.events
+            dele = [i for i, e in enumerate(ev) if e[0] == 'call' and e[1].endswith('::Delete')]
+            zero = [e for e in ev if e[0] == 'zero']
+            if not zero:
                 ctx.report(rd, key, f.where, 'the deleter is not guarded by the decrement reaching zero')
                 break
-        dn = [x for x in f.own_nodes() if x.get('cn', '').endswith('::Delete')]
-        if dn and br is not None:
-            pos = f.cfg.pos_of(dn[0]['i'])
-            tr = br.succ[0]
-            if not (pos and tr is not None and (pos[0] == tr or tr in f.cfg.dom().get(pos[0], ()))):
-                ctx.report(rd, key, f.loc(dn[0]), 'the deleter can run although the count did not reach zero')
+            if dele and not any(e == ('zero', True) for e in ev[:dele[0]]):
+                ctx.report(rd, key, ev[dele[0]][3], 'the deleter can run although the count did not reach zero')
+                break
+            if not dele and zero[-1][1] is True:
+                ctx.report(rd, key, f.where, 'the count reached zero and the object is not deleted (leak)')
+                break
     return n
 
 
